@@ -41,7 +41,7 @@ def gen(tier, rng):
                 for t in POOLS:
                     if rep and t == 1:
                         continue
-                    cases.append(rz.resize_case(pt, sw, sh, dw, dh, alg=alg, flt=flt, m=2, alpha=alpha, cpu=rz.CPUS[g % 3],
+                    cases.append(rz.resize_case(pt, sw, sh, dw, dh, alg=alg, flt=flt, m=2, alpha=alpha, cpu=rz.pick(g, 115, rz.CPUS),
                                                 src_c={"g": "rand", "seed": seed, "flo": 0.0, "fhi": 1.0}, threads=t, log=("digest",),
                                                 chk=pipe + ("threads", "ret_ok", "outside") + (("memo_exact",) if t > 1 or rep else ()), g=g))
     # alpha operations: one- and two-image splitting
@@ -54,7 +54,7 @@ def gen(tier, rng):
                 seed = rng.randint(1, 10 ** 9)
                 cont = {"g": "rand", "seed": seed, "flo": 0.0, "fhi": 1.0}
                 for t in POOLS:
-                    cases.append(rz.img_case(op, pt, w, h, src_c=cont, dst_c=cont if op.endswith("_inplace") else None, cpu=rz.CPUS[g % 3],
+                    cases.append(rz.img_case(op, pt, w, h, src_c=cont, dst_c=cont if op.endswith("_inplace") else None, cpu=rz.pick(g, 116, rz.CPUS),
                                              threads=t, log=("digest",), chk=("threads", "ret_ok", "outside") + (("memo_exact",) if t > 1 else ()), g=g))
     return cases
 
